@@ -66,6 +66,14 @@ add("C10", "exploration",
     "Trusted: Python slicing semantics, nlrun serialiser. Multi-byte strings only for s[i] / s[a:b]; slice bounds beyond 64 bits may raise.",
     "DESIGN.md §3 C10")
 
+add("C11", "exploration",
+    "property-based testing (Hypothesis-generated stream specs) against Python generator reference (range/itertools), ~35 observations per stream on one variable",
+    "Finite streams of every listed constructor, at every dropped-prefix position, must agree with list(s) for len/index/slice/"
+    "reverse/last/in/truthiness/unpacking/for/consumers, and list(s) is re-read at the end to show the variable did not advance; "
+    "infinite streams through prefixes, indices, bounded slices and len == inf.",
+    "Trusted: Python range/itertools orders as documented in streams.rs/BUILTINS.md, nlrun serialiser, Hypothesis. Length <= 5000.",
+    "DESIGN.md §3 C11")
+
 NOT_APPLICABLE = {
 }
 
